@@ -6,7 +6,7 @@
 (* record: which laws the record triggers and whether each holds is decided by the         *)
 (* operators of SkyGeom.tla.  State i = 0 checks the minimum number of triggered           *)
 (* instances of every law and class (non-vacuity of the whole history).                    *)
-(* Record kinds: gc | rt | iso | nu0 | stripe | vec | unch.                                *)
+(* Record kinds: gc | rt | iso | nu0 | stripe | vec | unch | shape.                               *)
 EXTENDS SkyGeom, Json, IOUtils, TLC
 Recs == JsonDeserialize(IOEnv.VERIF_TRACE)
 MinPer == atoi(IOEnv.VERIF_MINPER)       \* required instances per class
@@ -26,6 +26,7 @@ Laws(r) ==
     [] r.kind = "stripe" -> {"StripeTable"}
     [] r.kind = "vec" -> {"AnglesVectorsInverse"}
     [] r.kind = "unch" -> {"CallerObjectUnchanged"}
+    [] r.kind = "shape" -> {"ArrayEqualsScalars"}
     [] OTHER -> {}
 
 Failing(r) ==
@@ -40,6 +41,7 @@ Failing(r) ==
     [] r.kind = "stripe" -> IF StripeHolds(r) THEN {} ELSE {"StripeTable"}
     [] r.kind = "vec" -> IF VecHolds(r) THEN {} ELSE {"AnglesVectorsInverse"}
     [] r.kind = "unch" -> IF CallerObjectUnchanged(r) THEN {} ELSE {"CallerObjectUnchanged " \o r.fn}
+    [] r.kind = "shape" -> IF ArrayEqualsScalars(r) THEN {} ELSE {"ArrayEqualsScalars " \o r.fn \o " " \o ShapeClass(r.shape)}
     [] OTHER -> {"unknown record kind"}
 
 (* the named deviation of SkyGeom.tla (if any) that admits a rejected record exactly *)
@@ -81,6 +83,11 @@ Shortfalls ==
            Count(LAMBDA r : r.kind = "rt" /\ r.dir = x /\ r.array /\ r.use >= 1) < MinPer}}
   \cup (IF Count(LAMBDA r : r.kind = "rt" /\ r.array /\ r.use >= 2) < MinPer THEN {"RoundTrip of an array object used more than twice"} ELSE {})
   \cup (IF Count(LAMBDA r : r.kind = "rt" /\ ~r.array /\ r.use >= 1) < MinPer THEN {"RoundTrip of a reused scalar object"} ELSE {})
+  (* every function is called on every shape class its interface admits *)
+  \cup {"ArrayEqualsScalars " \o x[1] \o " " \o x[2] : x \in {y \in CallerFns \X {"1d", "unit-dim", "lead3", "2d", "3d"} :
+           /\ y[2] \in ShapeClassesOf(y[1])
+           /\ Count(LAMBDA r : r.kind = "shape" /\ r.fn = y[1] /\ ShapeClass(r.shape) = y[2]) < MinPer}}
+  \cup (IF Count(LAMBDA r : r.kind = "shape" /\ r.fn = "gcirc" /\ r.bcast) < MinPer THEN {"ArrayEqualsScalars gcirc broadcast"} ELSE {})
   \cup {"CallerObjectUnchanged array " \o f : f \in {x \in CallerFns :
            Count(LAMBDA r : r.kind = "unch" /\ r.fn = x /\ r.array) < MinPer}}
   \cup {"CallerObjectUnchanged reused array " \o f : f \in {x \in TransformFns :
